@@ -168,7 +168,7 @@ def labels(c):
 
 # ------------------------------------------------------------------------------------------- indexing / iteration
 IDX_KINDS = {2: ["pointcoll", "linecoll", "quadriccoll", "normquadriccoll", "dualquadriccoll", "circlecoll", "transformationcoll", "segmentcoll", "polygoncoll", "trianglecoll", "rectanglecoll", "pentagoncoll"],
-             3: ["pointcoll", "linecoll", "planecoll", "quadriccoll", "spherecoll", "transformationcoll", "segmentcoll", "polygoncoll", "trianglecoll", "rectanglecoll"]}
+             3: ["pointcoll", "linecoll", "planecoll", "quadriccoll", "spherecoll", "transformationcoll", "segmentcoll", "polygoncoll", "trianglecoll", "rectanglecoll", "cuboidcoll"]}
 
 
 @st.composite
@@ -195,6 +195,10 @@ def build_elements(kind, d, vs, n):
     if base == "sphere":
         objs = [Z.build("sphere", d, vs[i % len(vs)])[0] for i in range(n)]
         return objs, Quadric, QuadricCollection
+    if base == "cuboid":
+        # several polyhedra in one Polyhedron tensor with a collection axis in front of the face and vertex axes
+        objs = [Z.build("cuboid", 3, vs[i % len(vs)])[0] for i in range(n)]
+        return objs, G.shapes.Polyhedron, lambda arr: G.shapes.Polyhedron(arr)
     if base == "pentagon":
         objs = []
         for i in range(n):
@@ -262,9 +266,10 @@ def run_idx(c):
             elif ck.check(len(items) == n, site + ":iter-length", len(items)):
                 for e, o in zip(items, objs):
                     check_elem(e, o, how)
-        ln, f = call(site + ":len", lambda: len(coll))
-        if f is None:
-            ck.check(ln == n, site + ":len", ln)
+        if isinstance(coll, G.base.TensorCollection):  # a Polyhedron tensor with a collection axis is not a collection class: no len()
+            ln, f = call(site + ":len", lambda: len(coll))
+            if f is None:
+                ck.check(ln == n, site + ":len", ln)
     else:
         for i in range(shape[0]):
             for j in range(shape[1]):
@@ -277,7 +282,7 @@ def run_idx(c):
         if f:
             ck.add(f)
         else:
-            ck.check(isinstance(row, G.base.TensorCollection) and row.array.shape == coll.array.shape[1:], site + ":row-is-collection", type(row).__name__)
+            ck.check((isinstance(row, G.base.TensorCollection) or kind == "cuboidcoll") and row.array.shape == coll.array.shape[1:], site + ":row-is-collection", type(row).__name__)
     return ck.result()
 
 
